@@ -103,8 +103,10 @@ def finish(col: Collector, tier: str, t0: float, cmd: str, quiet: bool = False) 
         if len(inst) < spec.floor:
             raise AnalysisError(f"rule {r}: {len(inst)} instances, below the confirmed floor {spec.floor} "
                                 f"(an anchor was refactored away; the rule would pass vacuously)")
-    known = [k for k in load_known() if k.get("property") == prop and k.get("status") == "known"]
-    kmap = {(k["rule"], k["key"]): k for k in known}
+    allknown = [k for k in load_known() if k.get("status") == "known"]
+    known = [k for k in allknown if k.get("property") == prop]
+    # a known finding applies wherever its rule instance is evaluated (rules can be shared between properties)
+    kmap = {(k["rule"], k["key"]): k for k in allknown}
     findings = [o for o in col.obs if not o.ok]
     new, listed = [], []
     seen_keys = set()
